@@ -52,13 +52,20 @@ def build(seed):
     types = {}  # name -> {"mod", "extends", "comps": [type names]}
     tlist = []
     for mi, m in enumerate(mods):
-        for k in range(rng.randint(0, 2)):
+        for k in range(rng.choice([0, 1, 2, 2, 3, 4])):
             t = f"gt{sx}x{len(tlist)}"
             visible = [x for x in tlist if types[x]["mod"] == m or types[x]["mod"] in uses[m]]
             ext = rng.choice(visible) if visible and rng.random() < 0.5 else None
             comps = [x for x in visible if rng.random() < 0.3 and x != ext]
             types[t] = {"mod": m, "extends": ext, "comps": comps}
             tlist.append(t)
+    # pointer components may name types declared later in the same module: cycles of composition, and of composition + extension
+    # (a parent holding a pointer to the type that extends it)
+    for a_i, a in enumerate(tlist):
+        for b in tlist[a_i + 1:]:
+            if types[a]["mod"] == types[b]["mod"] and b not in types[a]["comps"] and rng.random() < (0.5 if types[b]["extends"] == a else 0.25):
+                types[a]["comps"].append(b)
+                types[a].setdefault("ptr", set()).add(b)
     # procedures
     procs = {}  # name -> {"mod", "calls": set}
     plist = []
@@ -159,7 +166,7 @@ def render(model):
             L.append(f"type{', extends(' + td['extends'] + ')' if td['extends'] else ''} :: {t}")
             L += docs(t)
             for ci, c in enumerate(td["comps"]):
-                L.append(f"type({c}) :: c{ci}_{c}")
+                L.append(f"type({c}), pointer :: c{ci}_{c} => null()" if c in td.get("ptr", ()) else f"type({c}) :: c{ci}_{c}")
             L.append("integer :: payload")
             L.append(f"end type {t}")
         if m in model.get("iface_uses", {}):
